@@ -17,6 +17,10 @@ Part C  narrow probes of description / value / name / rooted-node shapes inside 
         wiki.merged_rooted_below_plain_root; two more shapes are relabelled inside part A/B by a predicate on the input:
         tsv.unmerged_library_unit_in_standard_class and tsv.dataframes_in_memory.
 Part D  a schema merged from several libraries refuses to save through every save entry point and writes nothing.
+Part E  systematic edits (rt/c05_sys.py): multi-valued attributes in which one value is contained in another (both orders),
+        and free text with code points that str.splitlines treats as line boundaries (U+2028, U+2029, U+0085) or that are
+        otherwise unusual non-ASCII text, in descriptions of every section, prologue / epilogue and a string attribute
+        value; same checks as part B, always through the file AND the in-memory entry points.
 """
 import glob
 import multiprocessing
@@ -30,6 +34,7 @@ from xml.etree import ElementTree as ET
 from rt.common import Workload, main, schema
 from rt import c05_util as U
 from rt import c05_gen as G
+from rt import c05_sys as S
 
 
 
@@ -242,28 +247,42 @@ def check_specs(e, specs):
     return out
 
 
-def run_edit_case(version, form, case_seed, tmp):
-    """-> (fails, ops, n_specs)"""
+def _load_edited(version, xml):
+    """-> (schema or None, new compliance issue keys, failure tuple or None)"""
     from hed.schema import from_string
-    base_xml, inv = _base(version, form)
-    xml, specs, ops = G.make_edit(base_xml, inv, form, case_seed)
-    fails = []
     try:
         e = from_string(xml, ".xml")
     except Exception as ex:      # noqa: BLE001
-        return [("C05.edit.compliant", {}, "edited XML does not load: %s: %s" % (type(ex).__name__, str(ex)[:300]),
-                 "generated edit is a loadable schema")], ops, len(specs)
+        return None, [], ("C05.edit.compliant", {}, "edited XML does not load: %s: %s" % (type(ex).__name__, str(ex)[:300]),
+                          "generated edit is a loadable schema")
     try:
         new = [_issue_key(i) for i in e.check_compliance()]
     except Exception as ex:      # noqa: BLE001
-        return [("C05.save.never_raises", {}, "check_compliance of the edited schema raised %s: %s" % (type(ex).__name__, str(ex)[:300]),
-                 "edited schema can be checked")], ops, len(specs)
+        return None, [], ("C05.save.never_raises", {}, "check_compliance of the edited schema raised %s: %s" % (type(ex).__name__, str(ex)[:300]),
+                          "edited schema can be checked")
     for k in _base_issues[version]:
         if k in new:
             new.remove(k)
+    return e, new, None
+
+
+def run_edit_case(version, form, case_seed, tmp):
+    """-> (fails, ops, n_specs)"""
+    base_xml, inv = _base(version, form)
+    xml, specs, ops = G.make_edit(base_xml, inv, form, case_seed)
+    e, new, fail = _load_edited(version, xml)
+    if fail:
+        return [fail], ops, len(specs)
     if new:
         return [("C05.edit.compliant", {}, [(k[0], k[2], k[3], k[4][:150]) for k in new][:4],
                  "edit stays inside what the schema rules allow (no new compliance issue)")], ops, len(specs)
+    partnered = inv.partnered
+    modes = (True, False) if partnered else ((True,) if case_seed % 2 else (False,))
+    return _check_edited(e, specs, inv, form, modes, case_seed % 5 == 0, "e%d" % case_seed, tmp), ops, len(specs)
+
+
+def _check_edited(e, specs, inv, form, modes, memory, tag, tmp):
+    fails = []
     try:
         bad = check_specs(e, specs)
     except Exception as ex:      # noqa: BLE001
@@ -271,9 +290,8 @@ def run_edit_case(version, form, case_seed, tmp):
     if bad:
         fails.append(("C05.edit.applied", {}, bad[:4], "loaded schema carries exactly the generated nodes/attributes/descriptions"))
     partnered = inv.partnered
-    modes = (True, False) if partnered else ((True,) if case_seed % 2 else (False,))
     rt_fails = []
-    roundtrip(e, ("xml", "mediawiki", "tsv"), modes, tmp, "e%d" % case_seed, rt_fails, memory=(case_seed % 5 == 0))
+    roundtrip(e, ("xml", "mediawiki", "tsv"), modes, tmp, tag, rt_fails, memory=memory)
     # input shape with a known loss on the unchanged tree: a library unit added to a unit class of the standard schema,
     # saved unmerged as TSV (predicate on the generated input only)
     lib_unit_in_std_class = partnered and any(sp["kind"] == "units" and sp.get("unit_class") in inv.std_unit_classes for sp in specs)
@@ -291,7 +309,64 @@ def run_edit_case(version, form, case_seed, tmp):
         elif rooted_plain and wiki_merged and clause in ("C05.rt.wiki_equal", "C05.cross.formats_agree", "C05.rt.entry_points_agree"):
             clause = "C05.wiki.merged_rooted_below_plain_root"
         fails.append((clause, where, observed, expected))
-    return fails, ops, len(specs)
+    return fails
+
+
+# ------------------------------------------------------------------------------------------------ part E worker
+
+def _shape_of_issue(key, specs):
+    """which generated shape does a compliance issue belong to (by the entry it names; prologue / epilogue by section)"""
+    code, section, name, attribute, message = key
+    name = name or ""
+    out = set()
+    for sp in specs:
+        if sp["kind"] == "text":
+            if sp["which"].casefold() in (message or "").casefold() or sp["which"].casefold() in section.casefold():
+                out.add(sp["shape"])
+        elif sp["kind"] == "tag":
+            if name == sp["short"] or name.endswith("/" + sp["short"]):
+                out.add(sp["shape"])
+        elif name == sp.get("name"):
+            out.add(sp["shape"])
+    return out
+
+
+def run_sys_case(version, form, family, quick, tmp):
+    """-> (fails, ops, n_shapes applied, shapes dropped as not allowed by this schema generation)"""
+    base_xml, inv = _base(version, form)
+    drop = set()
+    for attempt in (0, 1, 2):
+        xml, specs, ops, applied = S.build(base_xml, inv, form, family, quick, drop=drop)
+        e, new, fail = _load_edited(version, xml)
+        if fail:
+            return [fail], ops, len(applied), sorted(drop)
+        if not new:
+            break
+        more = set()
+        for k in new:
+            more |= _shape_of_issue(k, specs)
+        more = {m for m in more if ".setup" not in m}
+        if not more or attempt == 2:
+            return [("C05.edit.compliant", {}, [(k[0], k[2], k[3], k[4][:150]) for k in new][:4],
+                     "edit stays inside what the schema rules allow (no new compliance issue)")], ops, len(applied), sorted(drop)
+        drop |= more
+    modes = (True, False) if inv.partnered else (True,)
+    return _check_edited(e, specs, inv, form, modes, True, "s_" + family, tmp), ops, len(applied), sorted(drop)
+
+
+def _work_sys(item):
+    version, form, family, quick = item
+    tmp = _mkdtemp()
+    t = time.time()
+    try:
+        try:
+            fails, ops, n, dropped = run_sys_case(version, form, family, quick, tmp)
+        except Exception:      # noqa: BLE001 - fault of the generator itself
+            import traceback
+            fails, ops, n, dropped = [("C05.edit.compliant", {}, "generator error: " + traceback.format_exc()[-400:], "case runs")], [], 0, []
+    finally:
+        shutil.rmtree(tmp, ignore_errors=True)
+    return version, form, family, fails, ops, n, dropped, time.time() - t
 
 
 def _work(chunk):
@@ -501,7 +576,7 @@ def run(w: Workload):
 def _run(w: Workload):
     w.rule = ("A: all bundled schemas x 3 formats x {merged, unmerged} (legacy stand-alone libraries: xml/wiki). "
               "B: (compliant bundled schema, file form, case seed) -> 1-3 generated edit ops; distinct by the triple. "
-              "C: fixed probes x the 8.3-generation schemas. D: all pairs of partnered libraries with equal withStandard, "
+              "E: (compliant bundled schema, file form, family of systematic shapes). C: fixed probes x the 8.3-generation schemas. D: all pairs of partnered libraries with equal withStandard, "
               "3 spellings of the version list x 6 save entry points x {merged, unmerged}")
     allb = bundled_versions()
     versions = [v for v, _, _ in allb]
@@ -533,11 +608,23 @@ def _run(w: Workload):
         size = 4 if w.quick else 12
         chunks += [by[key][i:i + size] for i in range(0, len(by[key]), size)]
     probes = [(v, probe) for v, _, _ in compliant for probe in PROBES]
+    # ---- part E work list: systematic edits (rt/c05_sys.py)
+    sys_work = []
+    for k, (v, lib, ws) in enumerate(compliant):
+        for j, family in enumerate(("multi", "text")):
+            if not ws:
+                forms = ("merged",)
+            elif w.quick:
+                forms = (("unmerged", "merged")[(k + j) % 2],)
+            else:
+                forms = ("unmerged", "merged")
+            sys_work += [(v, form, family, w.quick) for form in forms]
     with ctx.Pool(nproc) as pool:
+        res_e = pool.map_async(_work_sys, sys_work, chunksize=1)     # the longest single items first
         res_a = pool.map_async(_work_bundled, versions, chunksize=1)
         res_b = pool.map_async(_work, chunks, chunksize=1)
         res_c = pool.map_async(_work_probe, probes, chunksize=2)
-        res_a, res_b, res_c = res_a.get(), res_b.get(), res_c.get()
+        res_a, res_b, res_c, res_e = res_a.get(), res_b.get(), res_c.get(), res_e.get()
     # ---- part A
     n_a = 0
     for version, fails in res_a:
@@ -563,6 +650,27 @@ def _run(w: Workload):
     w.part("B: generated edits", cases=len(work), exhaustive=False, edit_ops=n_ops, slowest_case_s=round(slow, 2),
            bound="%d edited schemas (1-3 ops each) over the 9 compliant bundled schemas; partnered libraries edited in their "
                  "unmerged (2/3) and merged (1/3) file form and round-tripped merged and unmerged; others in one save mode" % n_edits)
+    # ---- part E
+    n_shapes, slow_e, dropped_e = 0, 0.0, {}
+    for version, form, family, fails, ops, n, dropped, dt in res_e:
+        n_shapes += n
+        slow_e = max(slow_e, dt)
+        if dropped:
+            dropped_e["%s %s" % (version, family)] = len(dropped)
+        w.case(("E", version, form, family), nontrivial=n > 0, sample={"schema": version, "form": form, "family": family, "shapes": n,
+                                                                      "ops": ops[:3]})
+        for clause, where, observed, expected in fails:
+            w.fail(clause, dict(where, schema=version, form=form, family=family, part="E"), observed, expected)
+    w.part("E: systematic edits (contained values of multi-valued attributes; line-boundary and other non-ASCII text)",
+           cases=len(sys_work), exhaustive=True, shapes_applied=n_shapes, slowest_case_s=round(slow_e, 2),
+           shapes_not_allowed_by_the_schema_generation=dropped_e,
+           bound="the 9 compliant bundled schemas x {multi, text} (partnered libraries: %s file form); multi = suggestedTag / relatedTag "
+                 "over %d pairs per relation (prefix, suffix, infix, caseless) of existing tags with one contained in the other x 5 "
+                 "orders, 12 allowedCharacter lists, valueClass / unitClass lists over new classes with nested names; text = %d "
+                 "code points x 3 placements x 8 sites%s, prologue and epilogue; every edited schema is saved and reloaded through "
+                 "the file AND the string / dataframe entry points of all formats, merged and unmerged"
+                 % ("alternating" if w.quick else "both", 2 if w.quick else 6, len(S.LINE_BOUNDARIES + S.OTHER_NONASCII),
+                    " (quick: all on node descriptions and attribute values, a quarter of the other sites)" if w.quick else ""))
     # ---- part C
     tmp = _mkdtemp()
     try:
@@ -622,6 +730,12 @@ def _replay(w, case, inp, tmp):
             fails, ops, _ = run_edit_case(inp["schema"], inp["form"], inp["case_seed"], tmp)
             for clause, where, observed, expected in fails:
                 w.fail(clause, dict(where, **{k: inp[k] for k in ("schema", "form", "case_seed")}, ops=ops, part="B"), observed, expected)
+        elif inp.get("part") == "E":
+            fails, ops, _, _ = run_sys_case(inp["schema"], inp["form"], inp["family"], True, tmp)
+            if not fails:
+                fails, ops, _, _ = run_sys_case(inp["schema"], inp["form"], inp["family"], False, tmp)
+            for clause, where, observed, expected in fails:
+                w.fail(clause, dict(where, **{k: inp[k] for k in ("schema", "form", "family")}, part="E"), observed, expected)
         elif inp.get("part") == "A":
             fails = []
             roundtrip(schema(inp["schema"]), formats_for(inp["schema"]), (True, False), tmp, "b", fails)
